@@ -1,2 +1,76 @@
-//! Glue to the cfg(getong_stateright_verif) hooks in /repo (filled in when the hooks exist).
-pub fn set_perturb(_seed: u64) {}
+//! Glue to the cfg(getong_stateright_verif) hooks in /repo: market event capture and schedule perturbation.
+use serde_json::{json, Value};
+use stateright::verif::{self, MarketEvent};
+use std::cell::RefCell;
+use std::sync::atomic::{AtomicU64, Ordering};
+use std::sync::{Arc, Mutex};
+
+static EVENTS: Mutex<Vec<MarketEvent>> = Mutex::new(Vec::new());
+
+/// Start capturing market events (process-wide; capture runs must not overlap).
+pub fn start_capture() {
+    EVENTS.lock().unwrap().clear();
+    verif::set_tracer(Some(Arc::new(|e: MarketEvent| {
+        EVENTS.lock().unwrap().push(e);
+    })));
+}
+
+/// Stop capturing; returns the events of the FIRST market created during the capture, in lock order.
+pub fn stop_capture() -> Vec<Value> {
+    verif::set_tracer(None);
+    let mut evs = std::mem::take(&mut *EVENTS.lock().unwrap());
+    evs.sort_by_key(|e| e.seq);
+    let market = match evs.iter().find(|e| e.ev == "New") {
+        Some(e) => e.market,
+        None => return vec![],
+    };
+    evs.into_iter()
+        .filter(|e| e.market == market)
+        .map(|e| {
+            json!({"ev": e.ev, "thread": e.thread, "arg1": e.arg1, "arg2": e.arg2, "open": e.open,
+                   "thread_count": e.thread_count, "open_count": e.open_count, "batches": e.batches})
+        })
+        .collect()
+}
+
+static PERTURB: AtomicU64 = AtomicU64::new(0);
+thread_local! {
+    static RNG: RefCell<u64> = const { RefCell::new(0) };
+}
+
+/// Installs (seed != 0) or removes (seed == 0) a seeded perturbation at the yield points of the worker loops.
+pub fn set_perturb(seed: u64) {
+    PERTURB.store(seed, Ordering::SeqCst);
+    if seed == 0 {
+        verif::set_yield_hook(None);
+        return;
+    }
+    verif::set_yield_hook(Some(Arc::new(|_site: &'static str| {
+        let seed = PERTURB.load(Ordering::Relaxed);
+        let r = RNG.with(|c| {
+            let mut x = *c.borrow();
+            if x == 0 {
+                // per-thread stream derived from the seed and the thread name
+                let name = std::thread::current().name().unwrap_or("").to_string();
+                x = seed ^ 0x9E37_79B9_7F4A_7C15;
+                for b in name.bytes() {
+                    x = x.wrapping_mul(0x100_0000_01B3) ^ b as u64;
+                }
+                if x == 0 {
+                    x = 1;
+                }
+            }
+            x ^= x << 13;
+            x ^= x >> 7;
+            x ^= x << 17;
+            *c.borrow_mut() = x;
+            x
+        });
+        match r % 10 {
+            0..=4 => {}
+            5 | 6 => std::thread::yield_now(),
+            7 | 8 => std::thread::sleep(std::time::Duration::from_micros(30 + (r >> 8) % 100)),
+            _ => std::thread::sleep(std::time::Duration::from_micros(300 + (r >> 8) % 700)),
+        }
+    })));
+}
